@@ -12,8 +12,11 @@ RULE = ("acyclic workflows of 1-5 tool applications over generated typed languag
         "RDF in the Workflow vocabulary, passthrough on and off; the graph of add_workflow is compared with the model's graph (blank-node isomorphism) and, by the "
         "oracle, with the implementation's own add_expr on the inlined expression (origin triples and the workflow's input/output/class triples removed); the "
         "returned resource->node map must be total, and shared exactly as resources are; inputs and output marked; all listing orders and the RDF form give "
-        "isomorphic graphs or the same error; non-trivial = at least two applications; distinct by (language, workflow, switches)")
-ASSUMPTIONS = ["listing order is imposed through an ordered set of tool outputs (what a Python set could produce)"]
+        "isomorphic graphs or the same error; without passthrough the type every workflow source carries must be acceptable to every tool that uses it and above the type the source gets in an independently computed valid typing; plus a deferred-typing family (polymorphic tools x ** x, x ** x ** x on un-annotated sources that a later monomorphic tool constrains, mostly without passthrough); non-trivial = at least two applications; distinct by (language, workflow, switches)")
+ASSUMPTIONS = ["listing order is imposed through an ordered set of tool outputs (what a Python set could produce)",
+               "workflows in which the type of a workflow source is, contains, or is later given, a function type (a polymorphic operator over-applied through it) are not generated: "
+               "the type node such an operator's step gets depends on the in-place normalisation of a type object shared through the source, which the "
+               "value-based model does not have"]
 TRUSTED = ["harness/wfgen.py", "harness/graphgen.py", "rdflib.compare.isomorphic"]
 
 
@@ -103,13 +106,65 @@ def run(ctx):
         ctx.setup(X.operators_line(opdecls), "ok")
         ctx.setup("(canon F F " + " ".join(G.ty_sexp(t) for t in listed) + ")", "ok")
         for k in range(30 if ctx.tier == "quick" else 80):
-            wf = W.gen_workflow(rng, lang, spec, opdecls)
+            wf = None
+            for _ in range(6):
+                wf = wf or W.gen_workflow(rng, lang, spec, opdecls)
             if wf is None:
                 ctx.count("workflow_generation_failed")
                 continue
             bits = GG.gen_bits(rng)
             passthrough = rng.random() < 0.7
             one_workflow(ctx, li, spec, ops, opdecls, lang, listed, wf, bits, passthrough)
+    deferred_typing_family(ctx)
+
+
+def deferred_typing_family(ctx):
+    """sources whose type is settled late: polymorphic tools (x ** x, x ** x ** x) used early on un-annotated sources that a later,
+    monomorphic tool constrains - mostly without passthrough, where producers are fixed before all tools are known"""
+    rng = ctx.rng
+    FUN = G.FUN
+    for li in range(3 if ctx.tier == "quick" else 10):
+        decls = list(G.BUILTIN_DECLS) + [("A", [], None), ("B", [], None), ("C", [], None)]
+        if rng.random() < 0.6:
+            decls.append(("A1", [], 5))
+        if rng.random() < 0.4:
+            decls.append(("B1", [], 6))
+        spec = G.LangSpec(decls)
+        bases = spec.bases()
+        ops = spec.build()
+        x = ('v', 0)
+        a, b = (bases[0], ()), (bases[1], ())
+        c = (rng.choice(bases), ())
+        opdecls = [("f", {"nvars": 1, "nwild": 0, "body": X.fun(x, x), "constraints": []}),
+                   ("g", {"nvars": 0, "nwild": 0, "body": X.fun(a, a, b), "constraints": []}),
+                   ("h", {"nvars": 1, "nwild": 0, "body": X.fun(x, x, x), "constraints": []}),
+                   ("k", {"nvars": 0, "nwild": 0, "body": X.fun(b, c), "constraints": []}),
+                   ("m", {"nvars": 0, "nwild": 0, "body": X.fun(c, a), "constraints": []})]
+        listed = [(t, ()) for t in bases]
+        try:
+            lang, operators = X.build_typed_language(spec, ops, opdecls, canon=listed)
+        except Exception:  # noqa
+            ctx.count("language_rejected")
+            continue
+        ctx.setup(spec.sexp(), "ok T")
+        ctx.setup("(aliases)", "ok")
+        ctx.setup(X.operators_line(opdecls), "ok")
+        ctx.setup("(canon F F " + " ".join(G.ty_sexp(t) for t in listed) + ")", "ok")
+        # a source that an early, polymorphic tool leaves open and a later tool constrains (the producer is fixed before the later tool is parsed)
+        for wf in ({"sources": ["s0"], "apps": [("t0", "f 1", ["s0"]), ("t1", "f 1", ["t0"]), ("t2", "g 1 2", ["t1", "s0"])]},
+                   {"sources": ["s0", "s1"], "apps": [("t0", "h 1 2", ["s0", "s1"]), ("t1", "f 1", ["t0"]), ("t2", "g 2 1", ["t1", "s1"])]},
+                   {"sources": ["s0"], "apps": [("t0", "f 1", ["s0"]), ("t1", "f 1", ["t0"]), ("t2", "f 1", ["t1"]), ("t3", "g 2 1", ["s0", "t2"])]}):
+            ctx.count("deferred_typing_workflows")
+            one_workflow(ctx, ("dt", li), spec, ops, opdecls, lang, listed, wf, GG.gen_bits(rng), False)
+        for k in range(40 if ctx.tier == "quick" else 120):
+            wf = None
+            for _ in range(6):
+                wf = wf or W.gen_workflow(rng, lang, spec, opdecls, max_apps=5, p_ann=0.05)
+            if wf is None:
+                ctx.count("workflow_generation_failed")
+                continue
+            ctx.count("deferred_typing_workflows")
+            one_workflow(ctx, ("dt", li), spec, ops, opdecls, lang, listed, wf, GG.gen_bits(rng), rng.random() < 0.3)
 
 
 def wf_line(wf, bits, passthrough, order):
@@ -124,8 +179,8 @@ def one_workflow(ctx, li, spec, ops, opdecls, lang, listed, wf, bits, passthroug
     orders = list(itertools.permutations(range(n)))
     if len(orders) > 24:
         orders = [tuple(range(n))] + ctx.rng.sample(orders, 11)
-    case = {"lang": spec.to_json(), "workflow": wf, "bits": bits, "passthrough": passthrough, "listed": listed}
-    replay = dict(case, opdecls=[[nm, s] for nm, s in opdecls])
+    case = {"lang": spec.to_json(), "workflow": wf, "bits": bits, "passthrough": passthrough, "listed": listed, "opdecls": [[nm, s] for nm, s in opdecls]}
+    replay = dict(case)
     results = {}
     first = None
     for order in orders:
@@ -187,6 +242,7 @@ def one_workflow(ctx, li, spec, ops, opdecls, lang, listed, wf, bits, passthroug
                 {"check": "inline"}, replay)
     elif not passthrough:
         no_passthrough_oracle(ctx, wf, g, m, lang, replay)
+        source_type_oracle(ctx, wf, g, m, lang, bits, replay)
 
 
 def no_passthrough_oracle(ctx, wf, g, m, lang, replay):
@@ -209,6 +265,78 @@ def no_passthrough_oracle(ctx, wf, g, m, lang, replay):
             ctx.fail(f"workflow {wf} without passthrough: the output of {x} is consumed {k} time(s) but only {len(plain)} stand-in source node(s) are fed by its node",
                 {"check": "no-passthrough-link", "consumptions": k, "linked": len(plain)}, replay)
             return
+
+
+def source_type_oracle(ctx, wf, g, m, lang, bits, replay):
+    """without passthrough each source gets the most general type acceptable to all of its uses. Two necessary conditions are checked against
+    types computed independently of add_workflow: (acceptable) every tool's expression still type-checks when each workflow source is given
+    the type its node carries (a source whose node has no type, or Top, counts as Top) and every tool-output input is a fresh source;
+    (most general) the type of each source in ONE valid typing - all tools parsed over shared, unfixed source objects, then fixed - is a
+    subtype of the type its node carries"""
+    from transforge import expr as E
+    from transforge import type as T
+    from transforge.namespace import TF
+    if bits[GG.SWITCHES.index("with_types")] != "T" or bits[GG.SWITCHES.index("with_noncanonical_types")] != "T":
+        return
+    canon_uris = {}
+    for c in lang.canon:
+        try:
+            canon_uris[lang.uri(c)] = c
+        except Exception:  # noqa
+            pass
+    carried = {}
+    for s_ in wf["sources"]:
+        if W.res(s_) not in m:
+            continue
+        actual = [a for a in g.objects(m[W.res(s_)], TF.type)]
+        if not actual:
+            carried[s_] = T.Top()
+        elif len(actual) == 1 and actual[0] in canon_uris:
+            carried[s_] = canon_uris[actual[0]]
+        elif len(actual) == 1 and actual[0] == TF.Top:
+            carried[s_] = T.Top()
+        else:
+            return          # a non-canonical (blank node) type: not compared here
+    try:
+        stypes = {str(k)[len(W.NS):]: t for k, t in W.make_dict(wf).source_types(lang)}
+        src = {s_: (E.Source(stypes[s_]) if stypes.get(s_) is not None else E.Source()) for s_ in wf["sources"]}
+        exprs = []
+        for out, text, ins in wf["apps"]:
+            exprs.append(lang.parse_expr(text, *[src[x] if x in src else E.Source() for x in ins]))
+        for e in exprs:
+            e.fix()
+    except Exception as ex:  # noqa
+        ctx.count("source_type_oracle_skipped_" + type(ex).__name__)
+        return
+    ctx.count("source_type_oracle_workflows")
+    # (acceptable)
+    # (a source whose node has no type or Top is unconstrained: a fresh source; whether that is right is the second check)
+    fixed = {s_: (E.Source(t) if t.operator != T.Top else E.Source()) for s_, t in carried.items()}
+    for out, text, ins in wf["apps"]:
+        if not all(x in fixed or x not in src for x in ins):
+            continue
+        try:
+            lang.parse_expr(text, *[fixed[x] if x in fixed else E.Source() for x in ins])
+        except Exception as ex:  # noqa
+            ctx.fail(f"workflow {wf} without passthrough: the sources carry the types { {k: str(v) for k, v in carried.items()} }, but tool {out} = `{text}` over "
+                     f"{ins} does not accept them ({type(ex).__name__}): not a type acceptable to all uses",
+                {"check": "source-type-acceptable"}, replay)
+            return
+    # (most general)
+    for s_ in carried:
+        t = src[s_].type.follow()
+        if isinstance(t, T.TypeOperation):
+            t = t.normalize()
+            if any(isinstance(x, T.TypeVariable) for x in t):
+                continue
+            if carried[s_].operator == T.Top and t.operator != T.Top:
+                ctx.fail(f"workflow {wf} without passthrough: source {s_} carries no type, but its uses bound it: {t} is what one valid typing gives it",
+                    {"check": "source-type-lost"}, replay)
+                return
+            if t.is_subtype(carried[s_]) is not True:
+                ctx.fail(f"workflow {wf} without passthrough: source {s_} carries type {carried[s_]}, but {t} is acceptable to all its uses and is not a subtype of it",
+                    {"check": "source-most-general-type"}, replay)
+                return
 
 
 def final_of(wf):
